@@ -599,10 +599,12 @@ class Subspace(IdealPoint):
     def _data_with_dual(self):
         midpoints = np.sum(self.ideal_basis, axis=-2) / self.ideal_basis.shape[-2]
 
-        poincare_ctr, poincare_rad = self.sphere_parameters(model=Model.POINCARE)
-        spacelike_guess = Point(poincare_ctr, model=Model.KLEIN).coords(
-            model=Model.PROJECTIVE
-        )
+        # first guess for the spacelike complement: a vector which is
+        # orthogonal to the subspace for the Euclidean form (so it never
+        # lies in the subspace). The center of the sphere representing the
+        # subspace in the Poincare model is not usable here, since it is
+        # at infinity whenever the subspace contains the origin.
+        spacelike_guess = utils.kernel(self.ideal_basis)[..., 0]
 
         to_orthogonalize = np.concatenate(
             [np.expand_dims(midpoints, axis=-2),
